@@ -536,7 +536,9 @@ package geom
 //@     decreases 1 - i
 //@   loop 2 `for j := i + 2; j < len(curve); j++`
 //@     invariant [scan] 0 <= i && i + 2 <= j && j <= len(curve) && len(curve) >= 3 && (breakTime <==> j == len(curve))
-//@     invariant [out] fresh(out) && cap(out) == len(curve) && 1 <= len(out) && out[0] == curve[0] && (breakTime ? (len(out) <= i + 2 && out[len(out)-1] == curve[len(curve)-1]) : (len(out) <= i + 1 && out[len(out)-1] == curve[i]))
+//@     invariant [out] fresh(out) && cap(out) == len(curve) && 1 <= len(out) && (breakTime ? len(out) <= i + 2 : len(out) <= i + 1)
+//@     invariant [out_first] out[0] == curve[0]
+//@     invariant [out_last] breakTime ? out[len(out)-1] == curve[len(curve)-1] : out[len(out)-1] == curve[i]
 //@     invariant [validated] forall jj int, kk int :: i + 2 <= jj && jj < j && i < kk && kk < jj ==> distPS(curve[kk], curve[i], curve[jj]) <= tol
 //@     decreases len(curve) - i, len(curve) - j
 //@   loop 3 `for k := i + 1; k < j; k++`
